@@ -57,6 +57,10 @@ fn main() {
                 }
             }
         }
+        "selftest" => {
+            let d: usize = args.get(2).and_then(|s| s.parse().ok()).unwrap_or(3);
+            println!("{}", seqx::selftest(d));
+        }
         "overshoot" => {
             println!("{}", seqx::overshoot());
         }
